@@ -93,9 +93,22 @@ theorem verifyCascadingFields_ok {fx : Fix} {env : Env} {cs : ClientState} {st s
   split at hv; · cases hv
   split at hv; · cases hv
   split at hv; · cases hv
-  rename_i h1 h2 h3 h4 h5 h6
+  split at hv; · cases hv
+  rename_i h1 h2 h3 hr h4 h5 h6
   simp only [Bool.or_eq_true, decide_eq_true_eq, not_or, Nat.not_le, Nat.not_lt, ge_iff_le] at h6
   exact ⟨by simpa using h1, by simpa using h3, by omega, by omega, h6.1, h6.2, hv⟩
+
+/-- repaired code: the header carries the revision number of the head -/
+theorem verifyCascadingFields_rev {env : Env} {cs : ClientState} {st st1 : Store} {h : Header}
+    (hv : verifyCascadingFields Fix.fixed env cs st h = .ok st1) : h.rev = cs.head.rev := by
+  unfold verifyCascadingFields at hv
+  simp only at hv
+  split at hv; · cases hv
+  split at hv; · cases hv
+  split at hv; · cases hv
+  split at hv; · cases hv
+  rename_i hr
+  simpa [Fix.fixed] using hr
 
 theorem verifySeal_ok {fx : Fix} {env : Env} {cs : ClientState} {st st1 : Store} {h : Header}
     (hv : verifySeal fx env cs st h = .ok st1) :
@@ -285,6 +298,17 @@ theorem accept_sound {env : Env} {cs cs' : ClientState} {st st' : Store} {bt : N
       rw [this] at hc5; exact hc5
   · intro e he hw
     exact recentlySigned_fixed_false hu64 hrec e he (by omega)
+
+/-- **an accepted header stays in the revision of the head** (repaired code; the block hash and the seal do not
+cover `Height.RevisionNumber`, consensus states and recent-signer records are keyed by the full height): the height
+of an accepted header is `Height.Increment` of the head's. -/
+theorem accepted_same_revision {env : Env} {cs cs' : ClientState} {st st' : Store} {bt : Nat} {h : Header}
+    (hacc : updateClient Fix.fixed env cs st bt h = .ok (cs', st')) : h.rev = cs.head.rev ∧ cs'.head.rev = cs.head.rev := by
+  obtain ⟨c, st1, st2, _, _, hv, hu, _⟩ := updateClient_ok hacc
+  obtain ⟨_, _, _, _, hcf⟩ := verifyHeader_ok hv
+  obtain ⟨_, _, _, hcs', _⟩ := update_ok hu
+  have := verifyCascadingFields_rev hcf
+  exact ⟨this, by rw [hcs']; exact this⟩
 
 theorem pruneExpired_fixed (cs : ClientState) (st : Store) (bt : Nat) :
     (pruneExpired Fix.fixed cs st bt).recents = st.recents ∧ (pruneExpired Fix.fixed cs st bt).pending = st.pending := by
@@ -878,6 +902,23 @@ theorem trace_inv {env : Env} {cs : ClientState} {st : Store} {h0 : Header} {rec
       · obtain ⟨x, hx, h1, h2, h3⟩ := ih.sound e m
         exact ⟨x, List.mem_cons_of_mem _ hx, h1, h2, h3⟩
 
+/-- over runs of the repaired client every accepted header carries the revision number of the initial head -/
+theorem rev_constant {env : Env} {cs : ClientState} {st : Store} {h0 : Header} {recs : List (Header × Nat)}
+    (t : Trace env cs st h0 recs) : cs.head.rev = h0.rev ∧ ∀ x ∈ accepted h0 recs, x.rev = h0.rev := by
+  induction t with
+  | create hc hl =>
+    refine ⟨rfl, ?_⟩
+    intro x hx; simp [accepted] at hx; rw [hx]
+  | @step cs cs' st st' h0 h recs bt t hacc hu64 hnw hl' ih =>
+    obtain ⟨h1, h2⟩ := accepted_same_revision hacc
+    refine ⟨by rw [h2]; exact ih.1, ?_⟩
+    intro x hx
+    have hacc_eq : accepted h0 ((h, (valSet cs'.validators).length) :: recs) = h :: accepted h0 recs := rfl
+    rw [hacc_eq] at hx
+    rcases List.mem_cons.1 hx with e | m
+    · rw [e, h1]; exact ih.1
+    · exact ih.2 x m
+
 /-- **recents_invariant** (over runs of the repaired client). With `lo = compFrom …` (≥ head − ⌊N/2⌋):
 the store holds the sealer of *every* accepted height in `[lo, head]`, every entry of the store is the
 genuine sealer record of an accepted height, and `lo ≤ head ≤ lo + ⌊N/2⌋`; `compFrom_stable` shows that
@@ -1323,7 +1364,7 @@ theorem asFound_accepts_recent_signer_after_expiry :
     (run Fix.asFound env f9bClient (f9bBlocks ++ [(111, hdr 103 1 1 200)])).isOk = true
     ∧ (run Fix.fixed env f9bClient f9bBlocks).isOk = true
     ∧ (run Fix.fixed env f9bClient (f9bBlocks ++ [(111, hdr 103 1 1 200)])).isOk = false
-    ∧ (run ⟨true, false⟩ env f9bClient (f9bBlocks ++ [(111, hdr 103 1 1 200)])).isOk = true
+    ∧ (run ⟨true, false, true⟩ env f9bClient (f9bBlocks ++ [(111, hdr 103 1 1 200)])).isOk = true
     ∧ env.recover 56 (hdr 103 1 1 200) = env.recover 56 f9bClient.head
     ∧ (valSet f9bClient.validators).length / 2 = 3 := by
   refine ⟨by decide +kernel, by decide +kernel, by decide +kernel, by decide +kernel, by decide +kernel, by decide +kernel⟩
@@ -1405,6 +1446,42 @@ theorem reorg_overwrites_root :
     ∧ rootAt (runOps env World.empty reorgOps 0) 6 = some [6]
     ∧ rootAt (runOps env World.empty (reorgOps.take 3) 0) 5 = some [5] := by
   refine ⟨by decide +kernel, by decide +kernel, by decide +kernel, by decide +kernel, by decide +kernel⟩
+
+/-! ### F14 — code as found: a header is accepted under ANY revision number -/
+
+def rootOf (st : Store) (rev num : Nat) : Option Bytes := (lookupCons st.cons rev num).map (fun c => c.root)
+
+/-- branch A (5, 6) at revision 0, upgrade back to another header at height 4, branch B (5, 6) submitted under
+revision 7 with `fx`: `(head revision, head number, root stored at 0-6, root stored at 7-6)` -/
+def otherRevisionRun (fx : Fix) : Option (Nat × Nat × Option Bytes × Option Bytes) :=
+  match createClient env growClient with
+  | .ok (cs, st) =>
+    match updateClient fx env cs st 0 (hdr 5 2 1 103) with
+    | .ok (cs, st) =>
+      match updateClient fx env cs st 0 (hdr 6 1 2 106) with
+      | .ok (_, st) =>
+        match upgradeClient env st { growClient with head := branchBHead } 0 with
+        | .ok (cs, st) =>
+          match updateClient fx env cs st 0 { hdr 5 2 1 103 with root := [0xBB], rev := 7 } with
+          | .ok (cs, st) =>
+            match updateClient fx env cs st 0 { hdr 6 3 1 106 with root := [0xCC], rev := 7 } with
+            | .ok (cs, st) => some (cs.head.rev, cs.head.number, rootOf st 0 6, rootOf st 7 6)
+            | _ => none
+          | _ => none
+        | _ => none
+      | _ => none
+    | _ => none
+  | _ => none
+
+/-- the code as found accepts branch B under revision 7: the head is 7-6, and the consensus state 0-6 still holds
+the root of the ABANDONED branch A at a block number the head has reached (packet proofs at height 0-6 verify
+against it). The repaired code refuses the first header of another revision; fed under revision 0, branch B
+overwrites 0-5 and 0-6 (`reorg_overwrites_root`, `accepted_root_stored`). -/
+theorem asFound_accepts_other_revision :
+    otherRevisionRun Fix.asFound = some (7, 6, some [6], some [0xCC])
+    ∧ otherRevisionRun Fix.fixed = none
+    ∧ otherRevisionRun ⟨true, true, false⟩ = some (7, 6, some [6], some [0xCC]) := by
+  refine ⟨by decide +kernel, by decide +kernel, by decide +kernel⟩
 
 end Witness
 
